@@ -307,7 +307,7 @@ def pf_periodic(D, T=4, kind='contract', period='2h', duration=None, ec=False, e
     return Shape(pf, tg, prices_for(D, pr, T))
 
 
-def mk_orderbook(D, name, node, tg, orders, full_exec=False, capa_sym=False, wacc=0, skip=None, order_tz=None):
+def mk_orderbook(D, name, node, tg, orders, full_exec=False, capa_sym=False, wacc=0, skip=None, order_tz=None, as_frame=False, same_price=None):
     """orders: list of (k0, k1, capa, sign) with window in step indices (may lie outside the horizon);
     capacity concrete at Level A (it multiplies the execution variable in nodal rows), price symbolic"""
     eao = lift.import_eao()
@@ -321,16 +321,23 @@ def mk_orderbook(D, name, node, tg, orders, full_exec=False, capa_sym=False, wac
         st.append(s); en.append(e)
         capa.append(D.coef('%s_capa%d' % (name, i), cp))
         price.append(D('%s_price%d' % (name, i)))
+    if same_price is not None:
+        price[same_price[1]] = price[same_price[0]]       # two orders quoted at the very same price
     od = {'start': st, 'end': en, 'capa': capa, 'price': price}
+    mk_orderbook.last_orders = {k: list(v) for k, v in od.items()}       # what the user asked for (the reference reads this, not the object)
+    if as_frame:
+        od = pd.DataFrame({k: np.array(v, dtype=object) if k in ('capa', 'price') else v for k, v in od.items()})
     return eao.assets.OrderBook(name=name, nodes=node, orders=od, full_exec=full_exec, wacc=wacc)
 
 
-def pf_orderbook(D, T=3, orders=((0, 2, 2.0), (1, 3, -1.5), (1, 2, 1.0)), full_exec=False, storage=True, wacc=False, ob_last=False, freq='h', late_companion=False, order_tz=None):
+def pf_orderbook(D, T=3, orders=((0, 2, 2.0), (1, 3, -1.5), (1, 2, 1.0)), full_exec=False, storage=True, wacc=False, ob_last=False, freq='h', late_companion=False, order_tz=None,
+                 as_frame=False, same_price=None):
     eao = lift.import_eao()
     tg = grid(T, freq)
     (nA,) = nodes('A')
     w = D('wacc', lo=0) if wacc else 0
-    ob = mk_orderbook(D, 'ob', nA, tg, orders, full_exec=full_exec, wacc=w, order_tz=order_tz)
+    ob = mk_orderbook(D, 'ob', nA, tg, orders, full_exec=full_exec, wacc=w, order_tz=order_tz, as_frame=as_frame, same_price=same_price)
+    user_orders = {'ob': mk_orderbook.last_orders}
     assets = [ob, mk_market(D, 'mkt', nA, T, 'p', wacc=w)]
     if storage:
         assets.append(mk_storage(D, 'sto', nA, eff=None, costs=False, inflow=False, wacc=w))
@@ -340,7 +347,7 @@ def pf_orderbook(D, T=3, orders=((0, 2, 2.0), (1, 3, -1.5), (1, 2, 1.0)), full_e
     if ob_last or late_companion:
         assets = assets[1:] + assets[:1]
     pf = eao.portfolio.Portfolio(assets)
-    return Shape(pf, tg, prices_for(D, ['p'], T))
+    return Shape(pf, tg, prices_for(D, ['p'], T), meta=dict(user_orders=user_orders))
 
 
 def pf_scaled(D, T=3, base='storage', fixed=False, win=None, unit='h', freq='h'):
@@ -353,6 +360,10 @@ def pf_scaled(D, T=3, base='storage', fixed=False, win=None, unit='h', freq='h')
         b = mk_transport(D, 'base', nA, nB, eff=0.5)
     elif base == 'contract':
         b = mk_market(D, 'base', nA, T, 'r', ec=True)
+    elif base == 'periodic_contract':
+        b = mk_market(D, 'base', nA, T, 'r', ec=True, periodicity='2h')      # (a horizon that ends inside a period: T odd)
+    elif base == 'periodic_transport':
+        b = mk_transport(D, 'base', nA, nB, eff=0.5, periodicity='2h')
     elif base == 'take':
         lo = D('base_min', hi=0); hi = D('base_max', lo=0)
         b = eao.assets.Contract(name='base', nodes=nA, price='r', min_cap=lo, max_cap=hi,
@@ -370,7 +381,7 @@ def pf_scaled(D, T=3, base='storage', fixed=False, win=None, unit='h', freq='h')
                                 norm_scale=D.coef('norm', 2.0, lo_strict=0), fix_costs=D('fixc', lo=0), start=s, end=e)
     assets = [sa, mk_market(D, 'mA', nA, T, 'p')]
     pr = ['p', 'r']
-    if base == 'transport':
+    if base in ('transport', 'periodic_transport'):
         assets.append(mk_market(D, 'mB', nB, T, 'q')); pr.append('q')
     pf = eao.portfolio.Portfolio(assets)
     return Shape(pf, tg, prices_for(D, pr, T))
